@@ -109,6 +109,27 @@ def stated_range_C(name, method):
     return float(lo), float(hi), used, True
 
 
+def stated_endpoints(name, method):
+    """The exact end points of the stated range of ``method`` in the unit they are declared in:
+    [("Tc"|"Tk", value), ...] - only when the method consults exactly one declared label (else [])."""
+    inst = cls_of(name)()
+    labels = []
+    inst.checkPropertyTempRange = lambda label, val: labels.append(label)
+    try:
+        getattr(inst, method)(Tk=600.0)
+    except Exception:
+        pass
+    used = [l for l in dict.fromkeys(labels) if l in inst.propertyValidTemperature]
+    if len(used) != 1:
+        return []
+    (a, b), unit = inst.propertyValidTemperature[used[0]]
+    unit = str(unit).strip().upper()
+    if not b > a:
+        return []
+    kw = "Tk" if unit in ("K", "KELVIN") else "Tc"
+    return [(kw, float(a)), (kw, float(b))]
+
+
 def grid(lo, hi, n):
     """n points from lo to hi inclusive; the end points are pulled 1e-9 of the span inside so that a
     K<->C round-off never puts them outside the stated range."""
